@@ -179,7 +179,15 @@ func headerLine(l []byte, bh *Header) error {
 		return errBadHeader
 	}
 
-	var t Tag
+	// The fields are collected first and only stored in bh when the
+	// whole line is acceptable, so a rejected line leaves bh unchanged.
+	var (
+		t          Tag
+		version    = bh.Version
+		sortOrder  = bh.SortOrder
+		groupOrder = bh.GroupOrder
+		otherTags  = bh.otherTags[:len(bh.otherTags):len(bh.otherTags)]
+	)
 	for _, f := range fields[1:] {
 		if len(f) < 3 || f[2] != ':' {
 			return errBadHeader
@@ -188,28 +196,29 @@ func headerLine(l []byte, bh *Header) error {
 		fs := string(f[3:])
 		switch t {
 		case versionTag:
-			if bh.Version != "" {
+			if version != "" {
 				return errBadHeader
 			}
-			bh.Version = fs
+			version = fs
 		case sortOrderTag:
-			if bh.SortOrder != UnknownOrder {
+			if sortOrder != UnknownOrder {
 				return errBadHeader
 			}
-			bh.SortOrder = sortOrderMap[fs]
+			sortOrder = sortOrderMap[fs]
 		case groupOrderTag:
-			if bh.GroupOrder != GroupUnspecified {
+			if groupOrder != GroupUnspecified {
 				return errBadHeader
 			}
-			bh.GroupOrder = groupOrderMap[fs]
+			groupOrder = groupOrderMap[fs]
 		default:
-			bh.otherTags = append(bh.otherTags, tagPair{tag: t, value: fs})
+			otherTags = append(otherTags, tagPair{tag: t, value: fs})
 		}
 	}
 
-	if bh.Version == "" {
+	if version == "" {
 		return errBadHeader
 	}
+	bh.Version, bh.SortOrder, bh.GroupOrder, bh.otherTags = version, sortOrder, groupOrder, otherTags
 
 	return nil
 }
